@@ -32,6 +32,16 @@ library's loop over send(); the peer receives exactly the accepted bytes) and `S
     and concurrently on one client (a cut-short send() blocks, the other callers' writes run meanwhile).
     The Call event's `bytes` are what the peer received on the call's connection (the concatenation of the
     accepted pieces, listed in `tx`) up to the end of the call (reply, error or timeout).
+(e) a deadline that expires inside a blocked write: the peer stops reading after a scripted number of bytes
+    (inside the length word, inside the header, inside the payload): send() blocks (FakeSocket.room, like
+    SimConn.stall_until), the call's deadline (real ClientTimeoutSink + the transport's gevent.Timeout) passes,
+    the peer reads again and 1-3 further calls go through the SAME client (stacks min / raw / full), and the
+    concurrent form on one full-stack client (groups of 2-3 calls, some connections stalled).  One Wire event
+    per scenario: per connection the stream the peer received, its lengths at the quiescent points and what
+    the Processor decoded from every complete frame; ThriftWireAbs!WireCheck: complete frames of calls that
+    were made, an unfinished frame only where nothing is sent after it.  The same scenario at transport level
+    is the code-shaped model ThriftWireTxn (WireCheck embedded, model-checked; the variant that keeps the
+    connection is a counterexample generator), every scenario replayed on the real SocketTransportSink.
 """
 import random
 import struct
@@ -51,6 +61,10 @@ ASSUMPTIONS = [
   'a send() accepts 1..offered bytes and returns the count, sendall() returns when everything was accepted; '
   'connections stay open and writable (no send faults): a call\'s bytes are everything its connection '
   'accepted until the call ended',
+  'a call whose writer was thrown out of a send() that the environment kept blocked (peer not reading until the '
+  'deadline) has no Call event: nothing is prescribed for its own bytes; the per-connection Wire clauses apply. '
+  'Quiescent points (cuts) are taken when every call made so far has returned, failed or timed out. No EOF / '
+  'truncated replies in these scenarios (an EOF legitimately faults the sink of a single-endpoint client)',
   'partial sends are exhaustive (TLC) for payloads up to 4 (quick) / 8 (thorough) bytes: every split of the '
   'frame across send() calls; real calls (up to ~4 KiB frames) are sampled with a fixed per-send() limit '
   'in {1, 3, 7, 64, 1000}',
@@ -63,18 +77,27 @@ ASSUMPTIONS = [
   'recorded but only chunk-independence is asserted for them',
 ]
 RULE = {'C14': 'direction A: every chunking of every bounded stream and every split of every bounded frame across '
-               'partial sends enumerated by TLC (distinct by stream+chunks / payload+accepted sizes); '
+               'partial sends and every bounded scenario of consecutive transactions with deadlines (stall inside the '
+               'write / no reply / reply) enumerated by TLC (distinct by stream+chunks / payload+accepted sizes / script); '
                'direction B: batches of seeded calls (interface x method x argument values x positional/keyword '
                'form x sync/async proxy form x server behaviour x chunking x truncation x per-send() limit x '
                'argument size x transport variant); a trace is non-trivial '
                'if it contains a Reply whose stream was delivered in more than one read, a Call whose frame was '
                'accepted in more than one send(), a Read with more than one socket read or a Write with more '
-               'than one send(); distinct by canonical event list'}
+               'than one send(), or a Wire scenario with more than one connection or an unfinished frame; distinct by '
+               'canonical event list'}
 EXHAUSTIVE = {('C14', 'quick'): False, ('C14', 'thorough'): False}
 CASE_TIMEOUT = 300
 
 ENUM_CFG = {'quick': 'ReadAll_enum_q.cfg', 'thorough': 'ReadAll_enum_t.cfg'}
 WENUM_CFG = {'quick': 'ThriftWireWrite_enum_q.cfg', 'thorough': 'ThriftWireWrite_enum_t.cfg'}
+XENUM_CFG = {'quick': 'ThriftWireTxn_enum_q.cfg', 'thorough': 'ThriftWireTxn_enum_t.cfg'}
+
+
+# the variant that keeps the connection when the deadline expires before write() has returned: TLC must find
+# the next transaction written behind the unfinished frame (the per-connection clauses are not vacuous)
+TXN_KEEP = dict(module='ThriftWireTxn', cfg='ThriftWireTxn_keep.cfg', workers=2, expect_violation='NoViolation',
+                what='counterexample generator: connection kept after a deadline inside write() -> C14.framePrefix')
 
 
 def models(prop, tier):
@@ -87,6 +110,11 @@ def models(prop, tier):
             dict(module='ThriftWireWrite', cfg='ThriftWireWrite_q.cfg', coverage=True, workers=2,
                  what='length-then-payload write, payloads <= 4 bytes, both write variants (sendall / the '
                       'ScalesSocket.write loop), every split of the frame across partial send() calls'),
+            dict(module='ThriftWireTxn', cfg='ThriftWireTxn_q.cfg', coverage=True, workers=4,
+                 what='2 consecutive transactions with deadlines on one sink, payloads <= 1 byte: partial sends {1, 3}, '
+                      'deadline expiring inside a blocked write / while waiting for the reply, close+reopen; '
+                      'ThriftWireAbs!WireCheck on the per-connection streams after every transaction'),
+            TXN_KEEP,
             codec]
   return [dict(module='ReadAll', cfg='ReadAll_q.cfg', coverage=True, workers=4,
                what='streams <= 8 bytes, 2 transactions, all chunkings'),
@@ -94,6 +122,11 @@ def models(prop, tier):
                what='streams <= 12 bytes, 2 transactions, all chunkings'),
           dict(module='ThriftWireWrite', cfg='ThriftWireWrite_t.cfg', coverage=True, workers=4,
                what='payloads <= 8 bytes, both write variants, every split across partial send() calls'),
+          dict(module='ThriftWireTxn', cfg='ThriftWireTxn_t.cfg', coverage=True, workers=6,
+               what='2 transactions with deadlines, payloads <= 2 bytes, every split / stall point / reply outcome'),
+          dict(module='ThriftWireTxn', cfg='ThriftWireTxn_t3.cfg', coverage=True, workers=6,
+               what='3 transactions with deadlines, payloads <= 1 byte, partial sizes {1, 3}'),
+          TXN_KEEP,
           codec]
 
 
@@ -445,8 +478,9 @@ def _gen_stall_call(rng, iface, smax, size, big=False):
       c['smax'] = smax
     if not METHODS[iface][c['m']].get('oneway'):
       break
-  if rng.random() < 0.92:
-    c['cut'] = -1
+  # no truncated reply streams here: an EOF legitimately faults the sink (single endpoint: the client is dead
+  # from then on), and these scenarios are about the calls that follow on the same client
+  c['cut'] = -1
   return c
 
 
@@ -1615,6 +1649,91 @@ def _write_transport(loop, variant, payload, accepts):
   return bytes(sock.sent), [list(x) for x in sock.txlog]
 
 
+def _txn_scenario(loop, variant, pays, script):
+  """Real SocketTransportSink ("varz": over VarzSocketWrapper, "raw": directly over ScalesSocket); consecutive
+  transactions whose messages carry a deadline; per transaction the socket accepts the scripted sizes, then
+  the transaction ends as scripted: the reply arrives ("reply"), never arrives ("noreply": the deadline
+  expires while waiting for it) or the peer stops reading after the accepted bytes ("stall": the deadline
+  expires inside the blocked write).  Returns the streams the peer received per connection, the per-
+  transaction (offered, accepted) logs and the Wire event."""
+  import time as _time
+  from scales.message import Deadline, MethodCallMessage
+  from scales.scales_socket import ScalesSocket
+  from scales.sink import ClientMessageSinkStack, ClientMessageSink
+  from scales.thrift.sink import SocketTransportSink
+  from scales.varz import VarzSocketWrapper
+  from scales.compat import BytesIO
+
+  class Top(ClientMessageSink):
+    def AsyncProcessRequest(self, sink_stack, msg, stream, headers):
+      pass
+
+    def AsyncProcessResponse(self, sink_stack, context, stream, msg):
+      pass
+
+  net = FakeSocket.net
+  del net.sockets[:]
+  net.hold = True
+  logs = []
+  try:
+    sock_obj = ScalesSocket('10.0.0.1', 9090)
+    if variant == 'varz':
+      sock_obj = VarzSocketWrapper(sock_obj, 'svc')
+    sink = SocketTransportSink(sock_obj, 'svc')
+    sink.Open()
+    loop.settle()
+    for pay, t in zip(pays, script):
+      live = [sk for sk in net.sockets if not sk.closed]
+      if not live:
+        break
+      sock = live[-1]
+      sock.accepts, sock.aidx = [a[1] if a[1] < a[0] else 0 for a in t['acc']], 0
+      if t['end'] == 'stall':
+        sock.room = sum(a[1] for a in t['acc'])     # the peer takes these bytes and then stops reading
+      k0 = len(sock.txlog)
+      stack = ClientMessageSinkStack()
+      stack.Push(Top())
+      msg = MethodCallMessage(None, 'm', (), {})
+      msg.properties[Deadline.KEY] = _time.time() + 1.0
+      sink.AsyncProcessRequest(stack, msg, BytesIO(bytes(pay)), {})
+      loop.settle()
+      if t['end'] == 'reply':
+        sock.peer_send(struct.pack('!i', 1) + b'r')
+        loop.settle()
+      else:
+        loop.run_for(1.5)
+        loop.settle()
+      logs.append([list(x) for x in sock.txlog[k0:]])
+      net.resume()
+      loop.settle()
+      _cut_all(net)
+    conns = [list(sk.sent) for sk in net.sockets]
+    wire = {'e': 'Wire', 'calls': [{'raw': list(p)} for p in pays],
+            'conns': [{'stream': list(sk.sent), 'cuts': list(sk.cuts), 'closed': 1 if sk.closed else 0, 'srv': []}
+                      for sk in net.sockets]}
+    try:
+      sink.Close()
+    except Exception:
+      pass
+    for sk in net.sockets:
+      sk.peer_send(b'', close=True)
+    loop.settle()
+  finally:
+    net.hold = False
+  return conns, logs, wire
+
+
+def _txn_one(loop, c):
+  conns, logs, wire = _txn_scenario(loop, c['variant'], c['pays'], c['script'])
+  drift = None
+  if 'spec_conns' in c:
+    spec_logs = [[list(a) for a in t['acc']] for t in c['script']]
+    if conns != [list(x) for x in c['spec_conns']] or logs != spec_logs:
+      drift = {'variant': c['variant'], 'pays': c['pays'], 'script': c['script'],
+               'spec_conns': c['spec_conns'], 'real_conns': conns, 'real_accepts': logs}
+  return [wire], sum(len(x) for x in logs) + len(logs), drift
+
+
 def _write_one(loop, c):
   rx, log = _write_transport(loop, c['variant'], bytes(c['payload']), c['accepts'])
   ev = [{'e': 'Write', 'variant': c['variant'], 'payload': list(c['payload']), 'accepts': log, 'rx': list(rx)}]
@@ -1630,6 +1749,8 @@ def _write_one(loop, c):
 def _chunk_one(loop, c):
   if c['kind'] == 'write':
     return _write_one(loop, c)
+  if c['kind'] == 'txn':
+    return _txn_one(loop, c)
   stream = bytes(c['stream'])
   if c['variant'] == 'varz':
     rets, log = _read_transport(loop, stream, c['chunks'], c['ntxn'])
@@ -1670,7 +1791,7 @@ def run_case(script):
     return _run_stall(script)
   if script['kind'] == 'cstall':
     return _run_cstall(script)
-  if script['kind'] in ('chunk', 'write'):
+  if script['kind'] in ('chunk', 'write', 'txn'):
     loop = common.boot()
     _install_net()
     import scales.thrift.sink  # noqa
@@ -1739,6 +1860,22 @@ def replay_behaviours(prop, tier, seed):
                   # code that offers more than the model does is not cut short by the script
                   'accepts': [(a[1] if a[1] < a[0] else 0) for a in accepts],
                   'spec_accepts': accepts, 'spec_rx': rx})
+  nwrite = len(items) - nread
+  # consecutive transactions with deadlines: every scenario of ThriftWireTxn (partial sends, a deadline that
+  # expires inside a blocked write or while waiting for the reply, the next transaction on the same sink)
+  rx = tlc.run_tlc('ThriftWireTxn', XENUM_CFG[tier], workers=1, timeout=3000, heap='8g')
+  if not rx.ok:
+    raise RuntimeError('ThriftWireTxn enumeration failed: %r %r\n%s' % (rx.violated, rx.error, rx.stdout[-2000:]))
+  xbehs = _parse_emitted(rx.stdout, 'X')
+  if not xbehs:
+    raise RuntimeError('no transaction scenarios emitted by TLC:\n' + rx.stdout[-2000:])
+  for b in xbehs:
+    _tag, variant, pays, script, conns = b
+    key = common.canon(['X', variant, pays, script])
+    if key in seen:
+      continue
+    seen.add(key)
+    items.append({'kind': 'txn', 'variant': variant, 'pays': pays, 'script': script, 'spec_conns': conns})
   per = 150
   batches = [{'kind': 'chunks', 'items': items[i:i + per]} for i in range(0, len(items), per)]
   res = common.run_forked(_run_chunks, batches, timeout_s=600)
@@ -1751,6 +1888,10 @@ def replay_behaviours(prop, tier, seed):
     steps += o['steps']
     if o['drift']:
       drift.append(o['drift'])
+    if it['kind'] == 'txn':
+      script = {'kind': 'txn', 'variant': it['variant'], 'pays': it['pays'], 'script': it['script']}
+      traces.append({'cfg': {'kind': 'txn'}, 'ev': o['ev'], 'script': script})
+      continue
     if it['kind'] == 'write':
       script = {'kind': 'write', 'variant': it['variant'], 'payload': it['payload'], 'accepts': it['accepts']}
       traces.append({'cfg': {'kind': 'write'}, 'ev': o['ev'], 'script': script, 'nsends': len(it['spec_accepts'])})
@@ -1759,14 +1900,26 @@ def replay_behaviours(prop, tier, seed):
               'chunks': it['chunks']}
     traces.append({'cfg': {'kind': 'chunk'}, 'ev': o['ev'], 'script': script, 'nreads': len(it['spec_reads'])})
   return {'summary': {'behaviours_replayed': len(items), 'read_chunkings_replayed': nread,
-                      'write_splits_replayed': len(items) - nread, 'steps_compared': steps, 'drift': len(drift),
-                      'tlc_enum_distinct_states': r.distinct + rw.distinct,
-                      'tlc_enum_wall_s': round(r.wall_s + rw.wall_s, 1)},
+                      'write_splits_replayed': nwrite, 'txn_scenarios_replayed': len(items) - nread - nwrite,
+                      'steps_compared': steps, 'drift': len(drift),
+                      'tlc_enum_distinct_states': r.distinct + rw.distinct + rx.distinct,
+                      'tlc_enum_wall_s': round(r.wall_s + rw.wall_s + rx.wall_s, 1)},
           'traces': traces, 'drift': drift}
 
 
 def trace_for_tlc(t):
   return {'cfg': t['cfg'], 'ev': t['ev']}
+
+
+def _unfinished(stream):
+  """the stream ends inside a frame (only used to count scenarios as non-trivial)"""
+  p = 0
+  while p + 4 <= len(stream):
+    n = struct.unpack('!i', bytes(stream[p:p + 4]))[0]
+    if n < 0 or p + 4 + n > len(stream):
+      return True
+    p += 4 + n
+  return p < len(stream)
 
 
 def nontrivial(prop, t):
@@ -1779,6 +1932,11 @@ def nontrivial(prop, t):
       s = t.get('script') or {}
       if t.get('nreads', len(s.get('chunks', []))) > 1:
         return common.canon([e['variant'], e['stream'], s.get('chunks')])
+    if e['e'] == 'Wire':
+      # more than one connection, or a connection that ends in an unfinished frame
+      if len(e['conns']) > 1 or any(_unfinished(c['stream'])
+                                    for c in e['conns']):
+        return common.canon(t['ev'])
     if e['e'] == 'Write':
       s = t.get('script') or {}
       if t.get('nsends', len(s.get('accepts', []))) > 1:
@@ -1804,10 +1962,15 @@ def extra_coverage(prop, tier, traces):
   writes = sum(1 for t in traces for e in t['ev'] if e['e'] == 'Write')
   partial = sum(1 for t in traces for e in t['ev'] if e['e'] == 'Call' and len(e.get('tx') or []) > 1)
   big = sum(1 for t in traces for e in t['ev'] if e['e'] == 'Call' and len(e['bytes']) > 1000)
+  wires = sum(1 for t in traces for e in t['ev'] if e['e'] == 'Wire')
+  unfinished = sum(1 for t in traces for e in t['ev'] if e['e'] == 'Wire'
+                   for c in e['conns'] if _unfinished(c['stream']))
+  stalled = sum(t.get('stalled', 0) for t in traces)
   kinds = {}
   for t in traces:
     for m in t.get('meta', []) or []:
       k = '%s/%s/%s/%s/%s/%s' % (m['iface'], m['srv'], m['form'], m['stack'], m.get('proto'), m.get('smax'))
       kinds[k] = kinds.get(k, 0) + 1
   return {'calls': calls, 'replies': replies, 'chunkings_replayed': reads, 'write_splits_replayed': writes,
-          'calls_sent_in_several_partial_sends': partial, 'calls_over_1000_bytes': big, 'call_classes': len(kinds)}
+          'calls_sent_in_several_partial_sends': partial, 'calls_over_1000_bytes': big, 'wire_scenarios': wires,
+          'connections_ending_in_unfinished_frame': unfinished, 'calls_whose_deadline_expired_in_write': stalled, 'call_classes': len(kinds)}
